@@ -15,7 +15,8 @@
                       `with io.indent(2):`) | "increment" (`with io.increment_indent(2):`) | "output" (`with
                       io.output.indent(2):`) - an indentation scope must not change what the run amounts to,
             hroute    how the handler is configured: "object" | "factory" (a callable returning it) | "method" (another
-                      handler_method name);  exit: terminate_after_run - the status then arrives as sys.exit(status).
+                      handler_method name) | "callback2" / "callback3" / "callbackv" (CallbackHandler around a function of
+                      two / three / any number of parameters);  exit: terminate_after_run - the status then arrives as sys.exit(status).
                       Neither may change what the run amounts to]
    A listener may also be [b |-> "noise"]: it writes to the I/O (leaving a style tag open) and raises the verbosity, and
    otherwise passes.
@@ -53,19 +54,22 @@ ConvClass(v) == CASE v = "inf" -> "OverflowError" [] v = "list" -> "TypeError" [
 \* Code*: exceptions carrying a `code` attribute that is no exit status: a method, None, a string, a float, an integer
 \* out of range.  NotPython / Undecodable: raised by code compiled under the name of an existing file that is a template /
 \* binary.  Sol*: the exception brings a crashtest solution (plain; description None; title None).  LongContext: the last
+\* TypeError / TypeErrorOnce: a TypeError raised by the handler's own body (Once: it would succeed if it were invoked again
+\* in the same run - it must not be).  LongContext: the last
 \* of 1500 exceptions linked through __context__; CircularContext: its context chain is a circle.  TagFile: raised by code compiled under the file name "</error>".  TagCloseOpen / LibraryCloseOpen: the message closes a tag it did not open and leaves another one open.
 CodeKinds == {"WithCode", "CodeMethod", "CodeNone", "CodeString", "CodeFloat", "CodeBig"}
 Kinds == {"Foreign", "Library", "KeyboardInterrupt", "Chained", "TagOpen", "TagClose", "TagUnbalanced", "TagCloseOpen",
           "MultiLine", "NonAscii", "Backslash", "NoSource", "StrFails", "LibraryTagged", "LibraryBackslash",
           "LibraryCloseOpen", "TagFile", "NotPython", "Undecodable", "SolPlain", "SolNoDesc", "SolNoTitle",
-          "LongContext", "CircularContext"} \cup CodeKinds
+          "LongContext", "CircularContext", "TypeError", "TypeErrorOnce"} \cup CodeKinds
 Scopes == {"top", "indent", "increment", "output"}
 IsInterrupt(k) == k = "KeyboardInterrupt"
 IsLibrary(k) == k \in {"Library", "LibraryTagged", "LibraryBackslash", "LibraryCloseOpen"}          \* CliKitException subclasses: simple report
 ClassOf(k) == CASE k = "KeyboardInterrupt" -> "KeyboardInterrupt" [] IsLibrary(k) -> "GenLibraryError"
                 [] k \in CodeKinds -> "WithCodeError" [] k = "StrFails" -> "StrFailsError"
                 [] k \in {"NoSource", "TagFile", "NotPython", "Undecodable"} -> "ValueError"
-                [] k \in {"SolPlain", "SolNoDesc", "SolNoTitle"} -> "SolutionError" [] OTHER -> "RuntimeError"
+                [] k \in {"SolPlain", "SolNoDesc", "SolNoTitle"} -> "SolutionError"
+                [] k \in {"TypeError", "TypeErrorOnce"} -> "TypeError" [] OTHER -> "RuntimeError"
 
 \* ------------------------------------------------------------------ tables: command lines
 \* alpha <a> [--flag]   |   beta [--num N]  with sub-command  beta gamma <c>  (inherits --num)
